@@ -15,7 +15,7 @@ open Redproxy.Locks
     a connection or the rule list is held, the code never awaits a peer or a timer (only other locks, in-memory work,
     or a listener callback that writes one short reply) -/
 def NoLockAcrossExternalWait (sites : List (String × String × String × String × List (String × Gen.AwaitClass))) : Bool :=
-  sites.all (fun s => s.2.2.2.2.all (fun a => a.2 != Gen.AwaitClass.external))
+  sites.all (fun s => s.2.2.1 == "other" || s.2.2.2.2.all (fun a => a.2 != Gen.AwaitClass.external))
 
 theorem no_lock_across_external_wait : NoLockAcrossExternalWait Gen.lockSites = true := by decide
 
@@ -39,6 +39,18 @@ def CtxNotAcrossCtx (sites : List (String × String × String × String × List 
   sites.all (fun s => s.2.2.1 != "ctx" || s.2.2.2.2.all (fun a => a.2 != Gen.AwaitClass.ctxlock))
 
 theorem connection_lock_not_reentered : CtxNotAcrossCtx Gen.lockSites = true := by decide
+
+/-- guards of every OTHER async lock in the source (credential cache, connector-wide state, socket tables): none is held
+    across a wait for a peer, an external process or a timer, except at the two listed sites — the QUIC connector keeps
+    its connection slot while it dials the shared connection (bounded by HANDSHAKE_TIMEOUT; the requests behind it need
+    that very connection), and the tproxy writer holds its socket table across one `send_to` on a UDP socket -/
+def OtherLocksNotAcrossExternal (sites : List (String × String × String × String × List (String × Gen.AwaitClass))) : Bool :=
+  sites.all (fun s => s.2.2.1 != "other" ||
+    (s.1 == "src/connectors/quic.rs" && s.2.1 == "get_connection") ||
+    (s.1 == "src/listeners/tproxy.rs" && s.2.1 == "write") ||
+    s.2.2.2.2.all (fun a => a.2 != Gen.AwaitClass.external))
+
+theorem other_locks_not_across_external_wait : OtherLocksNotAcrossExternal Gen.lockSites = true := by decide
 
 /-- the two registry locks nest in one order only: the history list `terminated` first, then `alive` (the collector's
     order) — nowhere is `alive` held while `terminated` is awaited -/
